@@ -1205,6 +1205,8 @@ func main() {
 	r := run.Rng
 	// fabio's real main() under real signals: its own processes and random source, in the background
 	sigClass := startSigClass(run.Seed, run.Thorough())
+	// ... and with the consul backend against an agent of the harness (deregister.go)
+	deregClass := startDeregClass(run.Seed, run.Thorough(), sigClass)
 	// Two waits: 600 ms for every scenario, 1500 ms again for a selection (a Shutdown that takes
 	// 1.5x the wait is 300 ms late at 600 ms, within the scheduling margin, but 750 ms late at 1500 ms).
 	// durations: short = ends >= 350 ms before the deadline, long = >= 400 ms beyond it
@@ -1457,6 +1459,8 @@ func main() {
 		}
 	}
 	sigClass.finish(run)
+	deregClass.finish(run)
+	run.Notes["real_main_consul_deregister"] = map[string]interface{}{"wait_ms": sigWait, "scripts": len(deregClass.scs)}
 	run.Notes["real_main_signals"] = map[string]interface{}{"wait_ms": sigWait, "upper_tolerance_ms": sigUpperTol, "scripts": len(sigClass.scs)}
 	run.Notes["wait_ms"] = []int{600, 1500}
 	run.Notes["hang_cap_ms"] = 10000
